@@ -1172,6 +1172,26 @@ func (in *interp) runStub(fr *frame, fi *fnInfo, args []value) value {
 		}
 		in.unsupported("harness stub " + fi.name + ": no results registered (vSetStub)")
 		return nil
+	case "jsonmarshal":
+		// func Marshal(v interface{}) ([]byte, error): fresh bytes that Unmarshal (jsonbind) maps back to a copy of v
+		it, ok := args[0].(iface)
+		if !ok || it.t == nil {
+			in.unsupported("jsonmarshal: nil value")
+		}
+		out := make([]value, 2)
+		for i := range out {
+			out[i] = in.freshVar("json", 8)
+		}
+		var cell value = copyVal(it.v)
+		objT := it.t
+		var obj value = iface{t: types.NewPointer(objT), v: &cell}
+		if _, isPtr := objT.Underlying().(*types.Pointer); isPtr {
+			obj = it // already a pointer: decoding yields the pointee
+		}
+		in.jsonBinds = append(in.jsonBinds, jsonBind{first: out[0].(*Term), n: len(out), obj: obj})
+		return tuple{out, iface{}}
+	case "arg0":
+		return args[0]
 	case "jsonbind":
 		// func Unmarshal(data []byte, v interface{}) error : v receives the object bound to data by vJSONBind
 		data, _ := args[0].([]value)
